@@ -203,10 +203,11 @@ class DigitPairTask(T.Task):
     """IBAN(K + xy + b) for every structure-conforming b and every digit pair xy: accepted iff xy are the computed
     digits; in particular the aliases 00, 01, 99 are never accepted"""
 
-    def __init__(self, cc):
+    def __init__(self, cc, via_object=""):
         from props.ibantasks import table
         self.cc = cc
-        self.name = f"IBAN check digit pairs[{cc}]"
+        self.via_object = bool(via_object)
+        self.name = f"IBAN check digit pairs[{cc}]" + (" through an unvalidated IBAN object" if self.via_object else "")
         self.L = table()[cc]["bban_length"]
         self.contracts = _contracts(self.L)
         from props.ibantasks import national_contract
@@ -224,6 +225,8 @@ class DigitPairTask(T.Task):
         from schwifty import IBAN
         text = SStr([z3.IntVal(ord(c)) for c in self.cc] + inp["dd"].chars + inp["b"].chars)
         # with or without national validation: the pair must be the computed one either way
+        if self.via_object:
+            text = I.call(IBAN, [text], {"allow_invalid": True})       # an object where text is expected
         return I.call(IBAN, [text], {"validate_bban": inp["validate_bban"]})
 
     def observe(self, I, path):
@@ -257,7 +260,9 @@ class DigitPairTask(T.Task):
 
     def native_code(self, inp):
         from schwifty import IBAN
-        o = T.native_obs(lambda: IBAN(self.cc + inp["dd"] + inp["b"], validate_bban=bool(inp.get("validate_bban"))))
+        text = self.cc + inp["dd"] + inp["b"]
+        o = T.native_obs(lambda: IBAN(IBAN(text, allow_invalid=True) if self.via_object else text,
+                                      validate_bban=bool(inp.get("validate_bban"))))
         return "ACCEPT" if not isinstance(o, (T.ExcTag, T.Escape)) else o
 
     def native_agree(self, inp):
@@ -288,6 +293,7 @@ def main(seed, tier):
     t0 = time.time()
     ccs = sorted(ibantasks.table())
     specs = [("props.c02", "FromBbanTask", (cc,)) for cc in ccs] + [("props.c02", "DigitPairTask", (cc,)) for cc in ccs]
+    specs += [("props.c02", "DigitPairTask", (cc, "via-object")) for cc in ("DE", "GB", "NO", "MT")]
     specs += [("props.shared", "NumerifyTask", (n,)) for n in shared.numerify_lengths()]
     results = common.run_tasks(specs, seed, tier)
     from props.c01 import ASSUMPTIONS
